@@ -211,17 +211,17 @@ def run(col, configs, tier):
         guarded(col, rule_dragonbox_arg, facts)
         guarded(col, rule_defaults, facts)
         guarded(col, I.rule_sizes, facts)
-        guarded(col, X.rule_buffer_allowance, facts)
-        guarded(col, X.rule_exponent_allowance, facts)
-        guarded(col, X.rule_min_digits_allowance, facts)
-        guarded(col, X.rule_digit_window_allowance, facts)
-        guarded(col, X.rule_integer_sign_allowance, facts)
-        guarded(col, X.rule_debug_buffer_belief, facts)
-        guarded(col, X.rule_radix_digit_clamp, facts)
+        guarded_soft(col, X.rule_buffer_allowance, facts)
+        guarded_soft(col, X.rule_exponent_allowance, facts)
+        guarded_soft(col, X.rule_min_digits_allowance, facts)
+        guarded_soft(col, X.rule_digit_window_allowance, facts)
+        guarded_soft(col, X.rule_integer_sign_allowance, facts)
+        guarded_soft(col, X.rule_debug_buffer_belief, facts)
+        guarded_soft(col, X.rule_radix_digit_clamp, facts)
         guarded_soft(col, X.rule_u128_count_chunks, facts)
-        guarded(col, X.rule_naive_count_stages, facts)
-        guarded(col, X.rule_zero_exponent_normalised, facts)
-        guarded(col, X.rule_break_magnitude, facts)
-        guarded(col, X.rule_radix_delta_positive, facts)
-        guarded(col, X.rule_integer_buffer_nondecimal, facts)
+        guarded_soft(col, X.rule_naive_count_stages, facts)
+        guarded_soft(col, X.rule_zero_exponent_normalised, facts)
+        guarded_soft(col, X.rule_break_magnitude, facts)
+        guarded_soft(col, X.rule_radix_delta_positive, facts)
+        guarded_soft(col, X.rule_integer_buffer_nondecimal, facts)
         guarded(col, F.rule_entry_validation, facts)
